@@ -236,7 +236,14 @@ def drv_ttm(ctx, k, rng):
         ctx.sample({"driver": "ttm", "dt": dt, "maturity": M, "T": T, "ttm_row0": full[0]})
 
 
+def drv_witness(ctx, k, rng):
+    """Fixed witness of the known finding grid.float_ratio_above_integer."""
+    d = EuropeanOption(BrownianStock(dt=1 / 12), maturity=5 / 12)
+    d.simulate(n_paths=1)
+
+
 DRIVERS = [
+    ("witness", 1, 1, drv_witness),
     ("sweep", 1200, 40000, drv_sweep),
     ("ttm", 200, 6000, drv_ttm),
 ]
